@@ -173,9 +173,9 @@ for _first in (True, False):
     CONTRACTS["results:Result.get_coverage#eligible_%s" % ("first_compartment" if _first else "further_compartment")] = dict(
         schema=schema, fragment={"iter": "prog.target_comps"}, make_env=_env_report_eligible(_first),
         stubs={"self.get_variable(comp_name, pop_name)": "COMP"},
-        ensures=[("C13.reported_number_eligible_adds_the_recorded_size_of_each_targeted_compartment",
+        ensures=[("C13+C11.reported_number_eligible_adds_the_recorded_size_of_each_targeted_compartment",
                   "len(num_eligible['prog']) == n and all(num_eligible['prog'][i] == %s for i in range(n))" % ("SIZES[i]" if _first else "SO_FAR[i] + SIZES[i]")),
-                 ("C13+C20.the_report_does_not_write_into_the_result", "num_eligible['prog'] is not comp0.vals and all(comp0.vals[i] == SIZES[i] for i in range(n))")],
+                 ("C13+C20+C11.the_report_does_not_write_into_the_result", "num_eligible['prog'] is not comp0.vals and all(comp0.vals[i] == SIZES[i] for i in range(n))")],
         defined_props=["C13", "C20"])
 
 
@@ -264,3 +264,88 @@ CONTRACTS["results:_extend_tvals#no_years"] = dict(
     schema=schema, make_env=_env_tvals([]), ensures=[("C20.nothing_to_extend", "len(result) == 0")], defined_props=["C20"])
 CONTRACTS["results:_extend_tvals#years_not_one_apart"] = dict(
     schema=schema, make_env=_env_tvals([2020, 2022]), raises={"AssertionError": "True"}, raises_props=["C20", "C18"], ensures=[], defined_props=["C20"])
+
+
+# ---- results._output_to_df, the population total of an exported output (C20: "summed aggregates equal the sum of their parts, averages lie between the smallest and largest
+# part"): a number quantity is totalled by SUMMING the populations and labelled `Total (sum)`; a fraction, proportion or probability is totalled by the WEIGHTED AVERAGE of the
+# populations and labelled so; anything else gets a row of NaN labelled as unknown.  PlotData (under contract for its aggregations) is a ghost that records how it was asked.
+def _env_total_row(units):
+    def make(it):
+        import numpy as np
+        from pyvc.interp import PyObjV
+        from pyvc import source
+
+        pm, rm = source.load("plotting"), source.load("results")
+        series = PyObjV("Series", pm, {"units": units})
+        popdata = PyObjV("PlotData", pm, {"series": [series], "results": {"r": "Result"}, "pops": ["a", "b"], "outputs": ["x"], "ASKED": None})
+        comp = PyObjV("Compartment", source.load("model"), {"units": "Number of people"})
+        model = PyObjV("Model", source.load("model"), {"pops": [PyObjV("Population", source.load("model"), {"comps": [comp]})]})
+        return {"popdata": popdata, "results": [PyObjV("Result", rm, {"model": model})], "output": "x", "output_name": "x", "pops": ["a", "b"], "tvals": np.array([2020, 2021]), "time_aggregate": False, "data": {}, "ASKED": [], "TOTAL_VALS": "values of the total"}
+
+    return make
+
+
+def _ghost_plotdata(it, results, outputs=None, pops=None, pop_aggregation=None, **k):
+    from pyvc.interp import PyObjV
+    from pyvc import source
+
+    it.live_env["ASKED"].append((outputs, pops, pop_aggregation))
+    return PyObjV("PlotData", source.load("plotting"), {"series": [], "results": {"r": "Result"}, "pops": ["total"], "outputs": ["x"]})
+
+
+_tot_calls = {"PlotData": _ghost_plotdata, "popdata.interpolate": (lambda it, *a, **k: None), "popdata.time_aggregate": (lambda it, *a, **k: None), "_extend_tvals": (lambda it, t: t), "np.full": (lambda it, shape, v: "row of nan")}
+_tot_stubs = {"popdata[result, popdata.pops[0], popdata.outputs[0]].vals": "TOTAL_VALS"}
+for _tag, _units, _label, _agg in (("number_of_people", "Number of people", "Total (sum)", "sum"), ("number", "number", "Total (sum)", "sum"), ("probability", "probability", "Total (weighted average)", "weighted"),
+                                   ("proportion", "proportion", "Total (weighted average)", "weighted"), ("fraction", "fraction", "Total (weighted average)", "weighted")):
+    CONTRACTS["results:_output_to_df#total_of_a_%s" % _tag] = dict(
+        schema=schema, fragment={"stmt_top": "if popdata.series[0].units in"}, make_env=_env_total_row(_units), call_stubs=_tot_calls, stubs=_tot_stubs,
+        ensures=[("C20.the_total_row_is_built_with_the_aggregation_its_label_names", "len(ASKED) == 1 and ASKED[0] == ('x', {'total': ['a', 'b']}, %r) and len(data) == 1 and data['x', 'Result', %r] == 'values of the total'" % (_agg, _label))],
+        defined_props=["C20"])
+CONTRACTS["results:_output_to_df#total_of_other_units"] = dict(
+    schema=schema, fragment={"stmt_top": "if popdata.series[0].units in"}, make_env=_env_total_row("duration"), call_stubs=_tot_calls, stubs=_tot_stubs,
+    ensures=[("C20.a_quantity_that_can_neither_be_summed_nor_averaged_gets_no_total", "len(ASKED) == 0 and len(data) == 1 and data['x', 'Result', 'Total (unknown units)'] == 'row of nan'")], defined_props=["C20"])
+
+
+def _replay_export_total(model, contract):
+    """replay END TO END on the tb demo: the exported tables of proportion / probability parameters defined in several populations; its `Total (weighted average)` row must lie between
+    the smallest and the largest population row, and the `Total (sum)` row of a compartment must be the sum of the population rows"""
+    import logging
+    import warnings
+
+    import numpy as np
+
+    warnings.filterwarnings("ignore")
+    import atomica as at
+    from atomica.results import _output_to_df
+
+    at.logger.setLevel(logging.ERROR)
+    P = at.demo("tb", do_run=False)
+    P.settings.update_time_vector(end=2010.0)
+    res = P.run_sim(P.parsets[0], store_results=False)
+    tvals = np.arange(2001, 2006)
+    bad, checked = [], 0
+    pars = [p.name for p in res.model.pops[0].pars if p.units in ("probability", "proportion", "fraction")][:6]
+    for name in pars + ["sus"]:
+        try:
+            df = _output_to_df([res], name, name, tvals)
+        except Exception:  # noqa
+            continue
+        rows = {idx[-1]: np.asarray(df.loc[idx].values, dtype=float) for idx in df.index}
+        parts = np.array([v for k, v in rows.items() if not str(k).startswith("Total")])
+        for k, v in rows.items():
+            if k == "Total (weighted average)" and len(parts) > 1:
+                checked += 1
+                if np.any(v > parts.max(axis=0) + 1e-9) or np.any(v < parts.min(axis=0) - 1e-9):
+                    bad.append("%s: the weighted average %r is outside the range of the populations [%r, %r]" % (name, float(v[0]), float(parts.min(axis=0)[0]), float(parts.max(axis=0)[0])))
+            if k == "Total (sum)" and len(parts) > 1:
+                checked += 1
+                if not np.allclose(v, parts.sum(axis=0), rtol=1e-9):
+                    bad.append("%s: the total %r is not the sum of the populations %r" % (name, float(v[0]), float(parts.sum(axis=0)[0])))
+    if not checked:
+        return dict(verdict="error", detail="no total row could be produced on the tb demo")
+    return dict(verdict="violates" if bad else "holds", detail="; ".join(bad[:2]) or "%d total rows agree with their population rows" % checked, prestate=dict(demo="tb", outputs=pars + ["sus"], years=[int(t) for t in tvals]))
+
+
+for _q in list(CONTRACTS):
+    if _q.startswith("results:_output_to_df#total_of_a_"):
+        CONTRACTS[_q]["replay_hook"] = _replay_export_total
